@@ -723,3 +723,46 @@ def C06(run):
         ["MC_AllocFault checks the transaction pattern (serve or refuse, unwind, report) for every operation length, request index and schedule",
          "per case TLC folds the logged allocator events: a failed operation may release or move only blocks it obtained itself and must hold none at the end; arguments are compared as logged trees with reference counts",
          "crashes are observed by ASan/UBSan and reported with the scenario"])
+
+
+# ---------------------------------------------------------------------------------------------- C09
+def C09(run):
+    q = run.quick()
+    mc = tlc_mc(run, "MC_Stream", workers=NCPU)
+    mcl = tlc_mc(run, "MC_Stream", "MC_Stream_live", workers=NCPU)
+    lib = build_lib(run, "dbg")
+    exe = build_harness(run, lib, "h_stream", ["vh.c", "h_gen.c", "h_stream.c"])
+    out = run.path("stream.ndjson")
+    _record_simple(run, exe, ["150" if q else "3000", "600" if q else "3000"], out, "incremental client")
+    if any('"livelock"' in l for l in open(out)):
+        report_violation(run, "stream-livelock", "the incremental client made 200000 calls without progress (a wait that does not exceed what is buffered)", {})
+    n = count_lines(out)
+    res = tracecheck(run, "Trace_Stream", out, boundary=b'{"e":"stream"')
+    def sig(ln, r):
+        first = json.loads(r["exec"][0])
+        arr = [json.loads(x).get("k") for x in r["exec"][:r["at"]] if '"arrive"' in x]
+        return "stream=%s cuts=%s" % (bytes(first.get("bytes", [])).hex()[:160], arr[:20])
+    _report_rejects(run, res, "fragmented stream", sig)
+    runs, kinds, calls = 0, set(), 0
+    cur = None
+    with open(out) as f:
+        for l in f:
+            if l.startswith('{"e":"stream"'):
+                runs += 1
+                cur = [l[:60]]
+            elif l.startswith('{"e":"arrive"'):
+                cur.append(l[15:25])
+            elif l.startswith('{"e":"call"'):
+                calls += 1
+            elif l.startswith('{"e":"end"') and cur is not None:
+                if len(cur) > 2:
+                    kinds.add(tuple(cur))
+    write_evidence(run, "model_checking", {
+        "states": mc["distinct"] + mcl["distinct"], "transitions": mc["generated"] + mcl["generated"],
+        "traces_validated_against_impl": runs - len(res["rejects"]),
+        "samples": _sample_lines(out, 1, lambda l: '"stream"' in l) + _sample_lines(out, 2, lambda l: '"nedata"' in l),
+        "evaluations": runs, "distinct_nontrivial": len(kinds), "decoder_calls": calls,
+        "rule": "one case = (stream, fragmentation): streams are seeded concatenations of 1..6 well-formed items and raw structural heads, some ending inside an item, some containing a reserved byte or a string head declaring 2^64-1 bytes; fragmentations: all at once, byte at a time, every single cut point (streams <= 40 bytes, a sample beyond), three random cuttings; the arrived bytes live in an exactly-sized heap block; distinct = (stream prefix, arrival pattern); non-trivial = at least two arrivals",
+        "trace_lines_validated_by_TLC": res["lines"], "exhaustive": False},
+        ["MC_Stream discharges the histories quantifier at model level: every stream of <= 3 heads from a 13-head alphabet (and their truncations) x EVERY fragmentation x both extreme legal values of `required`; liveness (complete delivery) under weak fairness",
+         "in conformance the real decoder's `required` only has to satisfy the C08 contract; the events are compared token by token with the tokenisation TLC computes from the whole stream"])
